@@ -49,12 +49,12 @@ pub enum Val {
     I16(i16),
     I32(i32),
     I64(i64),
-    I128(i128),
+    I128(#[serde(with = "as_str")] i128),
     U8(u8),
     U16(u16),
     U32(u32),
     U64(u64),
-    U128(u128),
+    U128(#[serde(with = "as_str")] u128),
     /// bit pattern, so equality is bit-for-bit
     F32(u32),
     F64(u64),
@@ -86,6 +86,20 @@ pub enum VVal {
     Newtype(Box<Val>),
     Tuple(Vec<Val>),
     Struct(Vec<Val>),
+}
+
+/// 128-bit integers as decimal strings (serde_json's Value cannot hold them)
+mod as_str {
+    use serde::{Deserialize, Deserializer, Serializer};
+    use std::fmt::Display;
+    use std::str::FromStr;
+    pub fn serialize<T: Display, S: Serializer>(v: &T, s: S) -> Result<S::Ok, S::Error> {
+        s.collect_str(v)
+    }
+    pub fn deserialize<'de, T: FromStr, D: Deserializer<'de>>(d: D) -> Result<T, D::Error> {
+        let s = String::deserialize(d)?;
+        s.parse().map_err(|_| serde::de::Error::custom("bad 128-bit integer"))
+    }
 }
 
 pub const FNAMES: [&str; 8] = ["f0", "f1", "f2", "f3", "f4", "f5", "f6", "f7"];
